@@ -18,7 +18,7 @@ ASSUMPTIONS = [
 NSHARDS = {"quick": 32, "thorough": 64}
 BUDGET_S = {"quick": 200, "thorough": 1800}
 MIN_HITS = {
-    'quick': {"pair": 5009, "len_constraint": 90, "sig_token": 160, "pubkey_token": 160, "pkh_token": 160, "self": 16852, "criteria": 10240, "expect_match": 2216, "expect_nomatch": 2707},
+    'quick': {"pair": 5025, "len_constraint": 90, "sig_token": 160, "pubkey_token": 160, "pkh_token": 176, "self": 16852, "criteria": 10240, "expect_match": 2232, "expect_nomatch": 2707},
     'thorough': {"pair": 678283, "len_constraint": 108, "mixed": 115194, "sig_token": 30720, "pubkey_token": 30720, "pkh_token": 30720, "self": 80192, "criteria": 1536000},
 }
 PSEUDO = {251, 252, 253, 254}
